@@ -23,6 +23,8 @@
          operations in flight (the snapshot an import was computed from, ...), nv (versions minted by gateway writes)
    Actions (each takes the scheduler's choice only; one goroutine runs at a time in the harness):
      ExtSet, ExtDelete, ExtUx             another application writes / deletes the document / sets its user xattr directly in the bucket
+     Conflict(nw)                         (conflicts-allowed family, first step only) the gateway is pushed revision 1 and two children of
+                                          it: the document has a winning and a losing live leaf; nw = the NEWEST revision is the winner
      SGMeta                               metadata-only rewrite by the gateway: ResyncDocument(regenerateSequences)
      Feed(i) = FeedBegin(i) ; FeedRel     importListener.ProcessFeedEvent on captured event i (late, twice, out of order)
      Cache(i)                             changeCache.DocChanged on captured event i (xattr-only content)
@@ -40,6 +42,7 @@ CONSTANTS MaxExt,       \* external writes (sets + deletes)
           MaxGet,       \* gateway reads
           Deletes,      \* BOOLEAN: ExtDelete enabled
           Split,        \* BOOLEAN: split (racing) actions enabled
+          Conflicts,    \* BOOLEAN: the conflicts-allowed family: every behaviour starts with Conflict; no delete / user xattr / write
           MaxSteps
 
 VARIABLES o, h,                         \* implementation state (see above)
@@ -65,7 +68,7 @@ SGBody(k) == 100 + k
 
 Init ==
   /\ o = [doc |-> NoDoc, meta |-> NoMeta, pcF |-> "idle", pcG |-> "idle", pcW |-> "idle", out |-> NoOut]
-  /\ h = [evs |-> <<>>, fl |-> NoSnap, gl |-> NoSnap, wl |-> NoW, nv |-> 0, sq |-> 0]
+  /\ h = [evs |-> <<>>, fl |-> NoSnap, gl |-> NoSnap, wl |-> NoW, nv |-> 0, sq |-> 0, cf |-> FALSE]
   /\ last = [who |-> "none", body |-> 0, del |-> TRUE] /\ lastUx = 0 /\ nExt = 0 /\ nUx = 0 /\ nSG = 0 /\ nMeta = 0
   /\ evOwn = <<>> /\ fed = {} /\ inF = 0 /\ inW = 0 /\ dirtyG = FALSE /\ dirtyW = FALSE
   /\ pre = [act |-> "Init", i |-> 0, settled |-> TRUE, revs |-> <<>>, seq |-> 0, cas |-> 0, cv |-> 0, has |-> FALSE, cur |-> 0, mouCas |-> 0, ucrc |-> 0]
@@ -185,6 +188,21 @@ SGMetaF(s) ==
       [m EXCEPT !.seq = s.h.sq + 1, !.ucrc = d.ux, !.mouCas = nc, !.mouPcas = IF m.mouCas # 0 /\ m.mouCas = d.cas THEN m.mouPcas ELSE d.cas])
       \* ResyncDocument: _sync rewritten without expanding _sync.cas / value_crc32c (the user-xattr checksum is refreshed:
       \* the sync function has just been re-run with the current user xattr); _mou.cas expanded
+(* three pushed revisions (PutExistingRevWithBody): 1, then its children 2 (loses) and 3 (wins the revision-id comparison), the
+   winner pushed last iff nw.  Whichever order: the bucket body is the winner's, the sequence and the version are the last push's *)
+ConflictF(s, nw) ==
+  LET c == s.o.doc.cas  q == s.h.sq  v == s.h.nv
+      r1 == [p |-> 0, body |-> SGBody(91), del |-> FALSE]
+      lo == [p |-> 1, body |-> SGBody(92), del |-> FALSE]
+      wi == [p |-> 1, body |-> SGBody(93), del |-> FALSE]
+      M(cas, body, revs, cur, n) == [has |-> TRUE, syncCas |-> cas, crc |-> body, ucrc |-> 0, revs |-> revs, cur |-> cur, seq |-> q + n,
+                                     cv |-> 1000 + v + n, mouCas |-> 0, mouPcas |-> 0]
+      D(cas, body) == [cas |-> cas, body |-> body, del |-> FALSE, ux |-> 0]
+      s1 == Mut(ClrOut(s), D(c + 1, SGBody(91)), M(c + 1, SGBody(91), <<r1>>, 1, 1))
+      s2 == IF nw THEN Mut(s1, D(c + 2, SGBody(92)), M(c + 2, SGBody(92), <<r1, lo>>, 2, 2))
+                  ELSE Mut(s1, D(c + 2, SGBody(93)), M(c + 2, SGBody(93), <<r1, wi>>, 2, 2))
+      s3 == Mut(s2, D(c + 3, SGBody(93)), M(c + 3, SGBody(93), <<r1, lo, wi>>, 3, 3))
+  IN [s3 EXCEPT !.h.sq = q + 3, !.h.nv = v + 3, !.h.cf = TRUE]
 CacheF(s, i) == SetOut(s, "acc", IF CacheAccepts(s.h.evs[i], s.o.doc) THEN 1 ELSE 0)
 
 -----------------------------------------------------------------------------
@@ -212,6 +230,8 @@ GhostExtUx(n) ==
   /\ GhostCommon("Ext", 0, FALSE, last, n) /\ nUx' = nUx + 1
   /\ dirtyG' = (dirtyG \/ o.pcG # "idle") /\ dirtyW' = (dirtyW \/ o.pcW # "idle")
   /\ UNCHANGED <<nExt, nSG, nMeta, fed, inF, inW>>
+GhostConflict == /\ GhostCommon("Conflict", 0, TRUE, [who |-> "sg", body |-> SGBody(93), del |-> FALSE], 0)
+                 /\ UNCHANGED <<nExt, nUx, nSG, nMeta, fed, inF, inW, dirtyG, dirtyW>>
 GhostSGMeta == GhostCommon("SGMeta", 0, TRUE, last, lastUx) /\ nMeta' = nMeta + 1 /\ UNCHANGED <<nExt, nUx, nSG, fed, inF, inW, dirtyG, dirtyW>>
 (* a = "Feed" | "FeedBegin" with the delivered event i, or "FeedRel" (the event in flight) *)
 GhostFeed(a, i) ==
@@ -238,13 +258,14 @@ GhostWrite(a) ==
 -----------------------------------------------------------------------------
 Apply(t) == o' = t.o /\ h' = t.h
 Step(a, i) == hist' = Append(hist, [a |-> a, i |-> i])
-Room == Len(hist) < MaxSteps
+Room == Len(hist) < MaxSteps /\ (Conflicts => h.cf)
 ReadWriteIdle == o.pcG = "idle" /\ o.pcW = "idle"
 
 ImplExtSet(b)  == Apply(ExtSetF(St, b))
 ImplExtDelete  == Apply(ExtDeleteF(St))
 ImplExtUx(n)   == Apply(ExtUxF(St, n))
 ImplSGMeta     == Apply(SGMetaF(St))
+ImplConflict(nw) == Apply(ConflictF(St, nw))
 ImplFeed(i)    == Apply(FeedF(St, i))
 ImplFeedBegin(i) == Apply(FeedBeginF(St, i))
 ImplFeedRel    == Apply(FeedRelF(St))
@@ -257,14 +278,15 @@ ImplWriteBegin(k) == Apply(WriteBeginF(St, k))
 ImplWriteRel   == Apply(WriteRelF(St))
 
 OKExtSet    == nExt < MaxExt /\ (o.doc.del => ReadWriteIdle)
-OKExtDelete == Deletes /\ nExt < MaxExt /\ ~o.doc.del /\ ReadWriteIdle
-OKExtUx     == nUx < MaxUx /\ ~o.doc.del /\ ReadWriteIdle
+OKExtDelete == ~h.cf /\ Deletes /\ nExt < MaxExt /\ ~o.doc.del /\ ReadWriteIdle
+OKExtUx     == ~h.cf /\ nUx < MaxUx /\ ~o.doc.del /\ ReadWriteIdle
 OKSGMeta    == nMeta < MaxMeta /\ o.meta.has /\ ~o.doc.del
 OKFeed(i)   == nFeed < MaxFeed /\ o.pcF = "idle" /\ i \in 1..Len(h.evs)
 OKCache(i)  == nCache < MaxCache /\ i \in 1..Len(h.evs)
 OKGet       == nGet < MaxGet /\ o.pcG = "idle"
-OKWrite     == nSG < MaxSG /\ o.pcW = "idle" /\ ~o.doc.del
+OKWrite     == ~h.cf /\ nSG < MaxSG /\ o.pcW = "idle" /\ ~o.doc.del
 
+Conflict(nw) == Conflicts /\ hist = <<>> /\ o.doc.cas = 0 /\ ImplConflict(nw) /\ GhostConflict /\ UNCHANGED cnt /\ Step("Conflict", IF nw THEN 1 ELSE 0)
 ExtSet      == Room /\ OKExtSet /\ ImplExtSet(nExt + 1) /\ GhostExt([who |-> "ext", body |-> nExt + 1, del |-> FALSE]) /\ UNCHANGED cnt /\ Step("ExtSet", nExt + 1)
 ExtDelete   == Room /\ OKExtDelete /\ ImplExtDelete /\ GhostExt([who |-> "ext", body |-> 0, del |-> TRUE]) /\ UNCHANGED cnt /\ Step("ExtDelete", 0)
 ExtUx       == Room /\ OKExtUx /\ ImplExtUx(nUx + 1) /\ GhostExtUx(nUx + 1) /\ UNCHANGED cnt /\ Step("ExtUx", nUx + 1)
@@ -281,6 +303,7 @@ WriteBegin  == Room /\ Split /\ OKWrite /\ ImplWriteBegin(nSG + 1) /\ GhostWrite
 WriteRel    == Room /\ o.pcW # "idle" /\ ImplWriteRel /\ GhostWrite("WriteRel") /\ UNCHANGED cnt /\ Step("WriteRel", h.wl.k)
 
 Next ==
+  \/ (\E nw \in BOOLEAN : Conflict(nw))
   \/ ExtSet \/ ExtDelete \/ ExtUx \/ SGMeta \/ Get \/ GetBegin \/ GetRel \/ Write \/ WriteBegin \/ WriteRel \/ FeedRel
   \/ \E i \in 1..Len(h.evs) : Feed(i) \/ FeedBegin(i) \/ Cache(i)
 Spec == Init /\ [][Next]_vars
@@ -319,10 +342,13 @@ ImportedOnce ==
         /\ Grown <= 2
         /\ \A n \in NewRevs : Revs[n].body = last.body \/ (Revs[n].body < 100 /\ ~(\E x \in NewRevs : x # n /\ Revs[x].body < 100))
 (* "as a new revision whose parent is the previous current revision" *)
+Leaves(rs) == {n \in 1..Len(rs) : ~\E c \in 1..Len(rs) : rs[c].p = n}
 ParentIsPrevCur ==
-  (o.meta.has /\ Grown >= 1) =>
+  (o.meta.has /\ Grown >= 1 /\ pre.act # "Conflict") =>
      /\ \A n \in NewRevs : Revs[n].p = (IF n = 1 THEN 0 ELSE IF n = Len(pre.revs) + 1 /\ pre.has THEN pre.cur ELSE n - 1)
      /\ o.meta.cur = Len(Revs)
+     /\ (pre.has => Leaves(Revs) = (Leaves(pre.revs) \ {pre.cur}) \cup {Len(Revs)})             \* on a conflicted document: the winner is superseded,
+                                                                                               \*   the other branches stay untouched
 (* LatestVisible: (a) once the import listener has processed every mutation of the document and nothing is in flight,
    the current revision is the last acknowledged write - with its body, or as a tombstone;  (b) a completed gateway read
    that no external write overlapped shows it *)
